@@ -33,6 +33,9 @@ for f in sys.stdin:
     for pre,ps in m:
         if f.startswith(pre): out.update(ps.split()); break
 print(' '.join(sorted(out)))")
+if [ -n "$NEG_ONLY" ]; then   # restrict to a subset of properties (space separated)
+  keep=""; for p in $props; do case " $NEG_ONLY " in *" $p "*) keep="$keep $p";; esac; done; props=$keep
+fi
 cd /verif
 [ -n "$(git -C /repo status --short)" ] && { echo "repo not clean"; exit 9; }
 git -C /repo apply $d/patch.diff || { echo "RESULT cannot-apply-to-repo"; exit 3; }
